@@ -338,7 +338,17 @@ def build_world(ctx: Ctx, loop, world_kw=None, connect_order=None):
     if scn.get("rt") and scn["rt"].get("time_resolution") is not None:
         kw["time_resolution"] = scn["rt"]["time_resolution"]
     kw.update(world_kw or {})
-    world = mosaik.World({}, **kw)
+    if scn.get("world_positional") and not world_kw:
+        # the documented positional order of the constructor: World(sim_config, mosaik_config, time_resolution, debug, cache,
+        # max_loop_iterations) - the event loop by keyword
+        import contextlib as _cl
+        import io as _io
+
+        with _cl.redirect_stdout(_io.StringIO()):  # (the greeting; skip_greetings is left at its default)
+            world = mosaik.World({}, None, kw.get("time_resolution", 1.0), kw.get("debug", False), kw["cache"], kw["max_loop_iterations"],
+                                 asyncio_loop=kw["asyncio_loop"])
+    else:
+        world = mosaik.World({}, **kw)
     ctx.world = world
     sims = S.sim_by_id(scn)
     order = scn.get("order") or [s["sid"] for s in scn["sims"]]
